@@ -103,6 +103,7 @@ pub fn gen(r: &mut Rng, _tier: &str, _i: usize, stats: &mut BTreeMap<String, u64
     let wo_pool = flat && r.chance(1, 4);
     let nsteps = 1 + r.below(if profile == "subs" { 3 } else { 6 });
     let mut steps = vec![];
+    let mut est: Vec<f64> = pool.iter().map(|p| p.len() as f64).collect();
     let all_names: Vec<String> = t.iter().map(|c| c.name.clone()).collect();
     for _ in 0..nsteps {
         let i = r.below(16);
@@ -155,6 +156,30 @@ pub fn gen(r: &mut Rng, _tier: &str, _i: usize, stats: &mut BTreeMap<String, u64
                 format!("p:{}:{}", target, if idxs.is_empty() { "-".to_string() } else { idxs.join(",") })
             }
         };
+        // rough size estimate of the result (derivatives multiply the size, substitution multiplies it by
+        // the size of the replacements): histories whose results would explode are tamed by replacing
+        // the step with a cheap one. (A failed step adds no entry; the estimate then is only rough.)
+        let at = |k: usize, est: &Vec<f64>| -> f64 { if k == 99 { *est.last().unwrap() } else { est[k % est.len()] } };
+        let g: Vec<&str> = step.split(':').collect();
+        let e = match g[0] {
+            "b" | "+" | "-" | "*" | "/" | "^" => at(g[1].parse().unwrap(), &est) + at(g[2].parse().unwrap(), &est) + 1.0,
+            "u" | "n" => at(g[1].parse().unwrap(), &est) + 1.0,
+            "s" => {
+                let repl: f64 = if g[2] == "-" { 0.0 } else { g[2].split(';').map(|kv| at(kv.split('=').nth(1).unwrap().parse().unwrap(), &est)).sum() };
+                at(g[1].parse().unwrap(), &est) * (1.0 + repl / 4.0)
+            }
+            _ => {
+                let n = if g[2] == "-" { 0 } else { g[2].split(',').count() };
+                at(g[1].parse().unwrap(), &est) * 6f64.powi(n as i32)
+            }
+        };
+        let (step, e) = if e > 40000.0 {
+            *stats.entry("step_tamed".to_string()).or_insert(0) += 1;
+            (format!("u:{}:{}", r.below(npool), hex("sin")), est[0] + 1.0)
+        } else {
+            (step, e)
+        };
+        est.push(e);
         *stats.entry(format!("step_{}", kind)).or_insert(0) += 1;
         steps.push(step);
     }
